@@ -664,6 +664,9 @@ func aclMain(args []string) {
 		c.Kind = kinds[g.n(len(kinds))]
 		c.Tomb = c.Kind == "put" && g.p(35)
 		ttl := uint32(pick(g, []int{0, 1, 1, 1, 2, 2, 3}))
+		if c.Kind == "search" && ttl == 0 {
+			ttl = 2 // SearchV2 refuses a zero TTL after the access checks: "served" would not be observable
+		}
 		c.TTL1 = ttl == 1
 		c.Cnr, c.Owner = 1, 1
 		c.Author = pick(g, []int{1, 1, 1, 2, 2, 2, 2, 3, 4, 4, 5, 5, 5})
